@@ -11,6 +11,7 @@ Local Open Scope Z_scope.
 From Servitor Require Import Mime Pub.
 From Servitor.Facts Require Import HtmlFacts MarkupFacts PubFacts.
 From Servitor.Facts Require Import HtmlFacts FrameFacts.
+From Servitor.Facts Require Import PubFacts.
 
 (* every JSON string is scrubbed on extraction: no control character but newline survives, for ALL texts *)
 Theorem scrub_clean :
@@ -176,3 +177,18 @@ Theorem every_frame_good :
   height t = Ui.u_height I C (ui_of_shown I C sh)).
 Proof. exact every_frame_good_fact. Qed.
 Print Assumptions every_frame_good.
+
+(* activities (who did what above the target): full text and preview exist (the four accepted kinds never reach the panic) and are good when the actor's name and the target's texts are *)
+Theorem activity_string_good :
+  forall (col : colors) (a : activity) (w : Z),
+  colors_ok col ->
+  activity_good a -> exists r : text, activity_string col a w = Ok r /\ good r.
+Proof. exact activity_string_good_fact. Qed.
+Print Assumptions activity_string_good.
+
+Theorem activity_preview_good :
+  forall (col : colors) (a : activity) (w : Z),
+  colors_ok col ->
+  activity_good a -> exists r : text, activity_preview col a w = Ok r /\ good r.
+Proof. exact activity_preview_good_fact. Qed.
+Print Assumptions activity_preview_good.
